@@ -15,7 +15,7 @@ TRUSTED_BASE = [
     "Axioms per theorem as printed by Print Assumptions (recorded in 'assumptions' below); allowlist is empty unless stated",
     "Hand-written Gallina model of muxide (coq/theories/Model): modelled, not verified; tied to /repo by the correspondence stage of this run",
     "Extraction: ExtrOcamlBasic only (bool/option/list/prod/unit/sumbool -> OCaml); no Extract Constant / Extract Inductive of our own",
-    "Translator gen/rust2coq.py (straight-line integer functions and named bit-field expressions of /repo re-derived on every run; coq/translated/Agree.v proves by conversion that they are the model's definitions) for C01 C04 C12 C14 C18",
+    "Translator gen/rust2coq.py (straight-line integer functions, named bit-field expressions and 51 fixed-layout box builders of /repo re-derived on every run; coq/translated/Agree.v proves by conversion / shallow rewriting that they are the model's definitions) for C01 C02 C04 C07 C08 C10 C11 C12 C14 C16 C18 C19",
     "Glue: ocaml/driver.ml, harness/src/main.rs, gen/*.py, bin/check (case language, hex printing, comparison, verdict)",
     "Transcribed standards (from memory; sandbox sealed): ISO/IEC 14496-12/-14/-15, AV1 5.5 + av1C, VP9 vpcC, Opus dOps, ADTS header, IEEE-754 binary64 as specified by Coq.Floats.SpecFloat, std::io::Write::write_all contract",
 ]
@@ -514,7 +514,7 @@ class Engine:
                         # the accept/reject decisions differ: that is C04's (and C05/C06's) business; a
                         # file property is relative to the accepted history, which the direct predicate
                         # takes from the implementation's own results
-                        touch = False
+                        touch = bool(P.get("decision_touch") and P["decision_touch"](c, m or [], i or []))
                         self.corr["decision_diffs"] = self.corr.get("decision_diffs", 0) + 1
                     else:
                         touch = obs(c, m or []) != obs(c, i or [])
@@ -1422,6 +1422,26 @@ def cli_probes(rng, prefix):
                 c.meta = d
                 c.lines = [json.dumps({k2: (v2 if not isinstance(v2, tuple) else [v2[0], (v2[1].hex() if v2[1] is not None else None)]) for k2, v2 in d.items()})]
                 out.append(c)
+    # real runs in which exactly ONE input file has unusable content (empty, blank, odd length, non-hex, binary)
+    # and everything else is valid: the run must fail and say so
+    CONTENT = [(b"", "empty"), (b"  \n\t ", "blank"), (None, "odd"), (b"zz00", "nonhex"), (b"\xff\xfe\x00\x01binary", "binary")]
+    for which in ("video", "audio-aac", "audio-opus"):
+        for text, kind in CONTENT:
+            for js in (False, True):
+                ac = None if which == "video" else ("aac-lc" if which == "audio-aac" else "opus")
+                d = dict(base, id="%sprobe%d" % (prefix, k), json=js, acodec=ac, aalias=None if ac is None else ("aac" if ac == "aac-lc" else "opus"))
+                k += 1
+                goodv = h264_key(rng, extra=False).hex().encode()
+                gooda = (adts(rng) if ac == "aac-lc" else opus_packet(rng)).hex().encode() if ac else None
+                if which == "video":
+                    d["video"] = (kind, goodv + b"0" if text is None else text)
+                else:
+                    d["video"] = ("valid", goodv)
+                    d["audio"] = (kind, gooda + b"0" if text is None else text)
+                c = Case(d["id"], "cli")
+                c.meta = d
+                c.lines = [json.dumps({k2: (v2 if not isinstance(v2, tuple) else [v2[0], (v2[1].hex() if v2[1] is not None else None)]) for k2, v2 in d.items()})]
+                out.append(c)
     return out
 
 
@@ -2064,3 +2084,28 @@ for _p in ("C09", "C03", "C06"):
     PROPS[_p]["fams"] = PROPS[_p]["fams"] + [("fam_encode_paths", 80, 2500)]
 for _p in ("C15", "C17", "C03"):
     PROPS[_p]["fams"] = PROPS[_p]["fams"] + [("fam_long_encode", 3, 40)]
+for _p in ("C07", "C19", "C02"):
+    PROPS[_p]["fams"] = PROPS[_p]["fams"] + [("fam_frag_init", 48, 400)]
+# wave 13: the byte-builder translation (51 box builders of mp4.rs / fragmented.rs re-derived from the source)
+for _p in ("C02", "C16", "C19", "C11", "C08"):
+    PROPS[_p]["translated"] = True
+for _p in ("C16", "C19", "C12", "C04", "C06"):
+    PROPS[_p]["fams"] = PROPS[_p]["fams"] + [("fam_dims", 48, 600)]
+for _p in ("C13", "C06", "C17"):
+    PROPS[_p]["fams"] = PROPS[_p]["fams"] + [("fam_sink_sweep", 162, 1500)]
+
+
+def range_guard_decision(case, m, i):
+    """C16 also says what happens to a value that does NOT fit: the call is rejected with an error.  A
+    difference in the accept/reject decisions is therefore C16's business when, at the first call on which
+    model and implementation disagree, the model returns the range-guard error (every guard of the writer --
+    dimensions, sample gap, composition offset, mdat size, parameter-set length -- surfaces as `Io`) and the
+    implementation does anything else (accepts the value, or panics)."""
+    dm, di = obs_decisions(case, m), obs_decisions(case, i)
+    for a, b in zip(dm, di):
+        if a != b:
+            return a == "err Io"
+    return False
+
+
+PROPS["C16"]["decision_touch"] = range_guard_decision
